@@ -1,10 +1,89 @@
-import Pendulum.Drv.Util
-/-! request handler for property C14 (stub until the property is built) -/
+import Pendulum.Drv.DTUtil
+import Pendulum.Model.Pickle
+/-! C14 requests (`way` = copy | deepcopy | p0..p5):
+  `c14dt <way> <tzref> <name> <wall> <fold>`                       → `ok <wall> <offset> <foldsel> <tzkind> <name> <fixedoff|x>`
+  `c14dur <way> <y> <mo> <wk> <d> <h> <mi> <s> <ms> <us>`          → `ok <12 observed ints>`
+  `c14iv <way> <same> <tzA> <nameA> <wA> <fA> <tzB> <nameB> <wB> <fB> <absolute>` → `ok <start 3> <end 3> <abs> <invert> <len>`
+  `c14time <way> <tod> <tzref> <name> <fold>`                      → `ok <tod> <tzkind> <name> <fixedoff|x>`
+  `c14date <way> <y> <m> <d>`                                      → `ok <y> <m> <d>`
+  `c14tz <way> <tzref> <name>`                                     → `ok <tzkind> <name> <fixedoff|x>`
+tzref: `n` | `<idx>` Timezone | `Z<idx>` zoneinfo.ZoneInfo | `f<seconds>` FixedTimezone(seconds, name) | `T<µs>` datetime.timezone -/
 namespace Pendulum.Drv.C14
-open Pendulum Pendulum.Drv
+open Pendulum Pendulum.Drv Pendulum.DTOps Pendulum.Pickle
 
-def handle (_zs : Zones) (ws : List String) : Option String :=
+def encL (s : Str) : String :=
+  match s with
+  | [] => "-"
+  | _ => ",".intercalate (s.map toString)
+
+def decL (w : String) : Option Str :=
+  if w == "-" then some [] else (w.splitOn ",").mapM String.toNat?
+
+/-- `none` = malformed, `some none` = naive -/
+def parseTz (zs : Zones) (r name : String) : Option (Option Tz) := do
+  let nm ← decL name
+  if r == "n" then some none
+  else if r.startsWith "f" then (r.drop 1).toString.toInt?.map fun o => some (mkFixed o nm)
+  else if r.startsWith "T" then (r.drop 1).toString.toInt?.map fun o => some (.ntz o)
+  else if r.startsWith "Z" then (getZone zs (r.drop 1).toString).map fun z => some (.zinfo nm z)
+  else (getZone zs r).map fun z => some (.named nm z)
+
+def tzWords (o : TzObs) : String :=
+  s!"{o.kind} {encL o.name} " ++ (match o.fixedOff with | some x => toString x | none => "x")
+
+def dtWords (o : DTObs) : String :=
+  s!"{o.w} {o.offset} " ++ (match o.foldSel with | some b => toString (b2i b) | none => "-1")
+
+def isPickle (way : String) : Bool := way.startsWith "p"
+
+def applyDT (way : String) (v : DT) : DT :=
+  if way == "deepcopy" then deepcopyDT v else if way == "copy" then copyDT v else pickleDT v
+
+def handle (zs : Zones) (ws : List String) : Option String :=
   match ws with
+  | ["c14dt", way, r, name, w, f] => do
+    let tz ← parseTz zs r name
+    let w ← w.toInt?
+    let o := (applyDT way ⟨tz, w, f == "1"⟩).obs
+    some ("ok " ++ dtWords o ++ " " ++ tzWords o.tz)
+  | ["c14dur", way, a, b, c, d, e, g, h, i, j] => do
+    match ints [a, b, c, d, e, g, h, i, j] with
+    | some [y, mo, wk, dd, hh, mi, s, ms, us] =>
+      let v := Dur.new dd s us ms mi hh wk y mo
+      let r := if way == "deepcopy" then deepcopyDur v else rebuildDur (reduceDur v)
+      let o := r.obs
+      some (okInts [o.years, o.months, o.weeks, o.rdays, o.hours, o.minutes, o.rsecs, o.micros, b2i o.invert,
+                    o.days, o.secs, o.us])
+    | _ => none
+  | ["c14iv", way, same, ra, na, wa, fa, rb, nb, wb, fb, ab] => do
+    let tza ← parseTz zs ra na
+    let tzb ← parseTz zs rb nb
+    let wa ← wa.toInt?
+    let wb ← wb.toInt?
+    let sm := same == "1"
+    let iv := mkIv sm ⟨tza, wa, fa == "1"⟩ ⟨tzb, wb, fb == "1"⟩ (ab == "1")
+    let f : DT → DT := if way == "deepcopy" then deepcopyDT else if way == "copy" then id else pickleDT
+    let o := (rebuildIv f sm (reduceIv iv)).obs
+    some ("ok " ++ dtWords o.start ++ " " ++ dtWords o.stop ++ s!" {b2i o.absolute} {b2i o.invert} {o.len}")
+  | ["c14time", way, tod, r, name, f] => do
+    let tz ← parseTz zs r name
+    let tod ← tod.toInt?
+    let t : TimeV := ⟨tod, tz, f == "1"⟩
+    -- Time has no `__deepcopy__`: the generic deepcopy is the reduce path with deep-copied arguments
+    let o := (if way == "copy" then rebuildTime (reduceTime t) else pickleTime t).obs
+    some (s!"ok {o.tod} " ++ tzWords o.tz)
+  | ["c14date", _way, y, m, d] => do
+    match ints [y, m, d] with
+    | some [y, m, d] =>
+      match rebuildDate (reduceDate y m d) with
+      | some (y', m', d') => some (okInts [y', m', d'])
+      | none => some "err State"
+    | _ => none
+  | ["c14tz", _way, r, name] => do
+    let tz ← parseTz zs r name
+    match tz with
+    | some t => some ("ok " ++ tzWords (rebuildTz (reduceTz t)).obs)
+    | none => none
   | _ => none
 
 end Pendulum.Drv.C14
